@@ -27,13 +27,12 @@ class MatchTraverser:
         self.vertex_path: List[Vertex] = leaf_vertex.path_as_list
         self.leaf_vertex = leaf_vertex
         self.root_data = root_data
-        self._invoke_next_action = self.done_action
+        self._invoke_next_action = self.init_action
         self.current_match = None
         self.root_match = None
         self.trace = trace
 
     def __iter__(self):
-        self._invoke_next_action = self.init_action
         return self
 
     def __next__(self) -> Match:
